@@ -1,6 +1,7 @@
 """C03: the public input binds the batch (real top-level circuits, Keccak/Merkle gadgets summarised, comparator justified here)."""
 import json, time
-from common import Run, run_dump, pool_map, main_guard
+from common import Run, run_dump, pool_map, main_guard, dumper_solve
+import random, treeref, keccak_ref, merkle
 import packing, bitgadgets
 from lift import Inconclusive
 
@@ -68,6 +69,46 @@ def main():
     main_guard(run, body)
 
 
+def full_inputs(kind, D, B, flat, hash_override=None):
+    """harness-order flat inputs (treeref) -> real circuit order with the on-chain input hash in front"""
+    if kind == 'ins':
+        rest = list(flat)
+    else:
+        pre, post = flat[0], flat[1]
+        idxs, idc, proofs = flat[2:2 + B], flat[2 + B:2 + 2 * B], flat[2 + 2 * B:]
+        rest = list(idxs) + [pre, post] + list(idc) + list(proofs)
+    h = packing.on_chain_hash(kind, D, B, [0] + rest)
+    return [h if hash_override is None else hash_override] + rest
+
+
+def end_to_end(run, kind, D, B, why):
+    """real circuit (BuildR1CS*) + gnark's solver: a valid batch with its on-chain hash must be accepted; the same batch with a wrong
+    post-root / wrong first index (hash recomputed for the forged values) must be rejected. Returns True if a violation was reported."""
+    rng = random.Random(7)
+    job = {'id': 'x', 'kind': 'build_ins' if kind == 'ins' else 'build_del', 'a': D, 'b': B}
+    flat = None
+    for _ in range(20):
+        flat = treeref.insertion_batch(D, B, rng) if kind == 'ins' else treeref.deletion_batch(D, B, rng)
+        if kind != 'ins' or flat[0] >= 1 or (1 << D) == B:
+            break
+    if not merkle.oracle(kind, D, B, flat)[0]:
+        return False
+    g = dumper_solve(job, full_inputs(kind, D, B, flat))
+    if not g['solved']:
+        run.violation('%s -- the real %s circuit (depth %d, batch %d, gnark solver) rejects a valid batch with its on-chain input hash: %s' % (why, kind, D, B, g['error'][:160]),
+                      {'kind': kind, 'D': D, 'B': B, 'inputs': [str(x) for x in full_inputs(kind, D, B, flat)], 'gnark_error': g['error'][:400]}, key='c03-e2e-rejects-valid')
+        return True
+    forged = list(flat)
+    pi = 2 if kind == 'ins' else 1          # post root position in harness order
+    forged[pi] = flat[1] if kind == 'ins' else flat[0]      # claim post-root = pre-root
+    g = dumper_solve(job, full_inputs(kind, D, B, forged))
+    if g['solved']:
+        run.violation('%s -- the real %s circuit (depth %d, batch %d) accepts a batch whose claimed post-root is the pre-root (public input = hash of the forged values)' % (why, kind, D, B),
+                      {'kind': kind, 'D': D, 'B': B, 'inputs': [str(x) for x in full_inputs(kind, D, B, forged)]}, key='c03-e2e-accepts-forged')
+        return True
+    return False
+
+
 def alias_probe(run, tk, o, cex):
     """solver answered unknown for a packed field: try the concrete alias witnesses v + k*p for that field (each decomposition hint
     of the field alone and all together); a hit is a real violation, a miss leaves the obligation inconclusive."""
@@ -125,12 +166,32 @@ def replay(run, tk, o, cex, paths):
             run.inconclusive.append(o['name'] + ': counterexample did not reproduce')
             return
         d = json.load(open(tk['path']))
-        if cex is None:
-            # structural obligation failed: exhibit with an honest witness whose public input then differs from the on-chain hash
-            cex = {'inputs': [1] + [(7 * i + 3) for i in range(len(d['Secret']))], 'hints': {}}
-            honest = True
-        else:
-            honest = 'completeness' in o['name']
+        if 'public' in (cex or {}) and 'only public wires' in o['name']:
+            run.violation('%s: the compiled circuit exposes public wires %s (direct observation of the R1CS gnark compiles from the tree)' % (o['name'], cex['public']), cex, key='c03-public-wires')
+            return
+        if cex is None or 'got' in (cex or {}):
+            # a structural obligation failed (glue to the Merkle gadget, Keccak call parameters): end-to-end scenarios on the real circuit
+            sizes = [(tk['kind'], min(tk['D'], 3), tk['B'])]
+            if 'got' in (cex or {}):
+                # parameters only matter where they change the number of absorbed blocks: look for such a batch size
+                got, want = cex['got'], cex['want']
+                for b in range(1, 40):
+                    n = want['InputSize'] - (want['InputSize'] // 1) + 0
+                    nb = (tk['B'] and 0) + b
+                    true_bits = (32 + 256 * (nb + 2)) if tk['kind'] == 'ins' else (32 * nb + 512)
+                    claimed = true_bits + (got['InputSize'] - want['InputSize'])
+                    if -(-(true_bits + 8) // 1088) != -(-(claimed + 8) // 1088):
+                        sizes = [(tk['kind'], 2, b)]
+                        break
+            for k_, D_, B_ in sizes:
+                if getattr(run, '_e2e_done', set()) and (k_, D_, B_) in run._e2e_done:
+                    return
+                run._e2e_done = getattr(run, '_e2e_done', set()) | {(k_, D_, B_)}
+                if end_to_end(run, k_, D_, B_, o['name']):
+                    return
+            run.inconclusive.append(o['name'] + ': structural deviation, but the end-to-end scenarios on the real circuit behave')
+            return
+        honest = 'completeness' in o['name']
         rep = packing.replay(tk['kind'], tk['D'], tk['B'], d, cex, honest=honest)
         rep['obligation'] = o['name']
         if 'completeness' in o['name']:
